@@ -18,6 +18,7 @@ import (
 	"runtime/metrics"
 	"sort"
 	"strings"
+	"sync"
 	"syscall"
 	"time"
 	"unsafe"
@@ -527,6 +528,31 @@ func (e *engine) Finish(stats, max map[string]int64, cov map[string]interface{})
 	cov["step_budget"] = fmt.Sprintf("%d + %d*len(input) yield points per decoder call", stepBase, stepPerByte)
 }
 
+// concurrentReaders decodes the inputs from four goroutines at once (panics
+// are recovered and ignored here: the sequential campaign reports those).
+func concurrentReaders(decs []int, inputs [][]byte) {
+	simkit.MarkPayload(nil)
+	var wg sync.WaitGroup
+	for g := 0; g < 4; g++ {
+		wg.Add(1)
+		go func(g int) {
+			defer wg.Done()
+			for round := 0; round < 2; round++ {
+				for i := range inputs {
+					in := inputs[(i+g*7)%len(inputs)]
+					for _, di := range decs {
+						func() {
+							defer func() { recover() }()
+							decoders[di].fn(in)
+						}()
+					}
+				}
+			}
+		}(g)
+	}
+	wg.Wait()
+}
+
 // RunPayload replays one (decoder, input) pair.
 func (e *engine) RunPayload(p []byte) *simkit.RunResult {
 	res := &simkit.RunResult{Stats: map[string]int64{}, Max: map[string]int64{}}
@@ -655,8 +681,24 @@ func (e *engine) Run(src *vs.Source, tier string, idx int64) *simkit.RunResult {
 	if exhaustive {
 		res.Stats["exhaustive_records"]++
 	}
-	inject(fs, rec, other, fields, format, exhaustive, per, apply)
+	var sampleInputs [][]byte
+	applyAndKeep := func(kind, fclass string, in []byte) {
+		if len(sampleInputs) < 48 && (len(sampleInputs) < 8 || fs.Intn(64, "keep") == 0) {
+			sampleInputs = append(sampleInputs, append([]byte(nil), in...))
+		}
+		apply(kind, fclass, in)
+	}
+	inject(fs, rec, other, fields, format, exhaustive, per, applyAndKeep)
 	res.Stats["faulted_inputs"] = res.Stats["decodes"]
+	// --- several readers at once (free-running goroutines, not simulated): a
+	// decoder that keeps state between calls can corrupt it fatally ("concurrent
+	// map writes" is not recoverable) when two callers decode at the same time.
+	// A fatal error kills this sacrificial worker and is attributed to the run.
+	if idx%4 == 0 {
+		variants := append([][]byte{rec, other, bytes.ToLower(rec), bytes.ToUpper(rec), bytes.Title(bytes.ToLower(rec))}, sampleInputs...)
+		concurrentReaders(decs, variants)
+		res.Stats["fault/concurrent-readers"] += int64(len(variants))
+	}
 
 	for t := range c.tuples {
 		res.Tuples = append(res.Tuples, t)
